@@ -67,6 +67,14 @@ fn ty_max(bits: u32) -> u128 {
     }
 }
 
+/// huge arguments on which `x << 1`, `x + 1`, `x + len`, `as u32` or `as i64` wrap while `x` itself is far out of
+/// range: every call with one of them must be answered `None`
+pub fn huge_args(n: usize) -> Vec<usize> {
+    let top = 1usize << 63;
+    vec![top, top + 1, top + n / 2, top + n.saturating_sub(1), top + n, (1usize << 62) + 1, 1 << 32, (1 << 32) + 1, (1usize << 32) + n / 2,
+         usize::MAX / 2, usize::MAX / 2 + 1, usize::MAX - n, usize::MAX - n / 2, usize::MAX - 1, usize::MAX]
+}
+
 pub fn join<T: ToString>(v: &[T]) -> String {
     v.iter().map(|x| x.to_string()).collect::<Vec<_>>().join(" ")
 }
@@ -330,7 +338,7 @@ pub fn tree_queries(r: &mut Rng, c: &mut Case, v: &[u128], bits: u32, budget: us
             poss.push(r.below(n as u64 + 1) as usize);
         }
     }
-    poss.push(usize::MAX);
+    poss.extend(huge_args(n));
     poss.push(1usize << 43);
     poss.sort();
     poss.dedup();
@@ -383,7 +391,7 @@ pub fn tree_queries(r: &mut Rng, c: &mut Case, v: &[u128], bits: u32, budget: us
                 let mut k = 0;
                 for &s in &syms {
                     let cnt = count(v, s);
-                    let mut ks: Vec<usize> = vec![0, 1, cnt.saturating_sub(1), cnt, cnt + 1, usize::MAX, usize::MAX - 1, cnt / 2];
+                    let mut ks: Vec<usize> = vec![0, 1, cnt.saturating_sub(1), cnt, cnt + 1, usize::MAX, usize::MAX - 1, cnt / 2, 1 << 63, (1 << 63) + cnt / 2, usize::MAX - cnt, (1 << 32) + 1];
                     for m in [8192usize, 16384, 24576] {
                         if cnt >= m {
                             ks.extend([m - 2, m - 1, m, m + 1]);
@@ -597,6 +605,7 @@ pub fn bits_queries(r: &mut Rng, c: &mut Case, slot: usize, n: usize, ones: &[us
     let n1 = ones.len();
     let n0 = n - n1;
     let mut poss: Vec<usize> = vec![0, 1, n.saturating_sub(1), n, n + 1, n / 2, usize::MAX];
+    poss.extend(huge_args(n));
     if n <= 70 {
         poss.extend(0..=n + 1);
     } else {
@@ -634,7 +643,7 @@ pub fn bits_queries(r: &mut Rng, c: &mut Case, slot: usize, n: usize, ones: &[us
             }
             "select1" | "select0" | "select1_unchecked" | "select0_unchecked" => {
                 let cnt = if op.starts_with("select1") { n1 } else { n0 };
-                let mut ks: Vec<usize> = vec![0, 1, cnt.saturating_sub(1), cnt, cnt + 1, usize::MAX, cnt / 2, cnt / 3];
+                let mut ks: Vec<usize> = vec![0, 1, cnt.saturating_sub(1), cnt, cnt + 1, usize::MAX, cnt / 2, cnt / 3, 1 << 63, (1 << 63) + cnt / 2, usize::MAX - cnt, (1 << 32) + 1];
                 for m in [1024usize, 2048, 8192, 16384, 32, 64, 1023, 1025] {
                     if cnt > m {
                         ks.extend([m - 1, m, m + 1]);
